@@ -303,7 +303,7 @@ pub fn c17_complement_n2_p4() {
 }
 
 // AdjacencyMap::random_tournament(3, every seed) stays a tournament with exactly 2 CPU(s).
-// @verif prop=C17 tier=quick fl=f2 role=map-tournament/t2 t=2400 mem=20
+// @verif prop=C17 tier=quick fl=f2 feat=map4 role=map-tournament/t2 t=2400 mem=20
 #[cfg_attr(kani, kani::proof)]
 #[cfg_attr(kani, kani::unwind(10))]
 pub fn c17_map_tournament_n3_t2() {
@@ -311,7 +311,7 @@ pub fn c17_map_tournament_n3_t2() {
 }
 
 // AdjacencyMap::erdos_renyi(3, every p, every seed) stays a simple digraph with exactly 2 CPU(s).
-// @verif prop=C17 tier=thorough fl=f2 role=map-erdos-renyi/t2 t=3600 mem=24
+// @verif prop=C17 tier=thorough fl=f2 feat=map4 role=map-erdos-renyi/t2 t=3600 mem=24
 #[cfg_attr(kani, kani::proof)]
 #[cfg_attr(kani, kani::unwind(10))]
 pub fn c17_map_erdos_renyi_n3_t2() {
@@ -319,7 +319,7 @@ pub fn c17_map_erdos_renyi_n3_t2() {
 }
 
 // AdjacencyMap::random_tournament(3, every seed) stays a tournament with exactly 4 CPU(s).
-// @verif prop=C17 tier=thorough fl=f2 role=map-tournament/t4 t=2400 mem=20
+// @verif prop=C17 tier=thorough fl=f2 feat=map4 role=map-tournament/t4 t=2400 mem=20
 #[cfg_attr(kani, kani::proof)]
 #[cfg_attr(kani, kani::unwind(10))]
 pub fn c17_map_tournament_n3_t4() {
@@ -327,7 +327,7 @@ pub fn c17_map_tournament_n3_t4() {
 }
 
 // AdjacencyMap::erdos_renyi(3, every p, every seed) stays a simple digraph with exactly 4 CPU(s).
-// @verif prop=C17 tier=thorough fl=f2 role=map-erdos-renyi/t4 t=3600 mem=24
+// @verif prop=C17 tier=thorough fl=f2 feat=map4 role=map-erdos-renyi/t4 t=3600 mem=24
 #[cfg_attr(kani, kani::proof)]
 #[cfg_attr(kani, kani::unwind(10))]
 pub fn c17_map_erdos_renyi_n3_t4() {
@@ -335,7 +335,7 @@ pub fn c17_map_erdos_renyi_n3_t4() {
 }
 
 // The seeded AdjacencyMap generators repeat exactly within one configuration (2 CPUs).
-// @verif prop=C17 tier=thorough fl=f2 role=map-deterministic/t2 t=3600 mem=24
+// @verif prop=C17 tier=thorough fl=f2 feat=map4 role=map-deterministic/t2 t=3600 mem=24
 #[cfg_attr(kani, kani::proof)]
 #[cfg_attr(kani, kani::unwind(10))]
 pub fn c17_map_deterministic_n3_t2() {
